@@ -46,6 +46,22 @@ def gen_prefix_case(rng):
     return c
 
 
+def gen_graph_only_null_case(rng):
+    """data-dependent graph maps whose columns are used by nothing else, with NULLs in them, in both output formats: a row without a graph value
+    gives no statement under every partitioning mode (also when the output format does not show the graph)"""
+    def tm(k, v, ck='iri', tt=''):
+        return {'k': k, 'v': v, 'ck': ck, 'tt': tt}
+    EX = mapcase.EX
+    rows = [[str(i + 1), rng.choice(['a', 'b', 'c']), (None if rng.random() < 0.4 else rng.choice(['g1', 'g2'])), (None if rng.random() < 0.3 else 'h')] for i in range(rng.choice([2, 3, 5]))]
+    g = rng.choice([tm('templ', EX + 'g/{g}'), tm('ref', 'g', 'iri', ''), tm('templ', EX + 'g/{g}/{h}')])
+    on_subject = rng.random() < 0.4
+    poms = [{'preds': [tm('const', EX + 'p/v')], 'objs': [{'m': tm('ref', 'v'), 'lang': None, 'dt': None, 'joins': []}], 'graphs': [] if on_subject else [g]}]
+    if rng.random() < 0.5:
+        poms.append({'preds': [tm('const', EX + 'p/w')], 'objs': [{'m': tm('templ', EX + 'o/{v}'), 'lang': None, 'dt': None, 'joins': []}], 'graphs': [tm('const', EX + 'g/const')] if rng.random() < 0.5 else []})
+    return {'cfg': {'nquads': rng.random() < 0.3, 'mode': 'NO'}, 'sources': [{'key': 'S0', 'kind': 'csv', 'cols': ['id', 'v', 'g', 'h'], 'rows': rows}],
+            'doc': [{'id': EX + 'tm/T', 'src': 'S0', 'nonasserted': False, 'subj': tm('templ', EX + 'r/{id}'), 'sjoins': [], 'classes': [], 'sgraphs': [g] if on_subject else [], 'poms': poms}]}
+
+
 def run(ctx, res):
     res.rule = ('each generated mapping x data (core generator plus rule sets with equal / nested / interleaved constant prefixes) is materialised under '
                 'NO, PARTIAL-AGGREGATIONS and MAXIMAL partitioning in its output format; the three implementation results must be equal to each other and to the '
@@ -54,6 +70,8 @@ def run(ctx, res):
     corpus = [f['replay'] for f in ctx.known.values() if isinstance(f.get('replay'), dict) and 'doc' in f['replay']]
     n = ctx.scale(70, 2000)
     cases = corpus + [gen_prefix_case(ctx.rng) for _ in range(n)] + [mapcase.gen_core_case(ctx.rng, hard=True) for _ in range(n // 2)]
+    cases += [mapcase.gen_shard_case(ctx.rng) for _ in range(ctx.scale(8, 80))]        # same-named tables of two databases, one section each
+    cases += [gen_graph_only_null_case(ctx.rng) for _ in range(ctx.scale(10, 100))]
     batch = family.Batch(ctx)
     per_mode = {m: batch.run(cases, cfg_override={'mode': m}, want_spec=False) for m in MODES}
     for i, case in enumerate(cases):
